@@ -132,6 +132,7 @@ type Obligation struct {
 	Derived bool
 	NoQuant bool // model search: drop quantified hypotheses
 	Focus   bool // second attempt: focused hypothesis selection
+	Group   string // proof group (`@g:NAME` clause tag): hypotheses of other groups are not used
 }
 
 type InputSym struct {
